@@ -22,9 +22,9 @@ UNITS = {
                  # these files are compiled for js/wasm only: the native suite cannot see them; compile both packages (two arguments: no link step)
                  test=[(".", ["env", "GOOS=js", "GOARCH=wasm", "go", "build", "./wasm/", "."])],
                  govc=["-unit", "wasm", "-funcs", r"^main\.|^otp\.(DeriveRFC4226Wasm|ValidateOTPWasm|pow10Wasm)", "-skip", r"^(otp\.init|main\.main)$"]),
-    "api": dict(files=["internal/app/api/handlers.go", "internal/app/api/dto.go", "internal/app/api/routers.go"],
+    "api": dict(files=["internal/app/api/handlers.go", "internal/app/api/dto.go", "internal/app/api/routers.go", "internal/app/api/middleware.go", "internal/app/api/common.go"],
                 test=[(".", ["go", "test", "-count=1", "-vet=off", "./..."]), ("internal/app", ["go", "build", "./..."])],
-                govc=["-unit", "api", "-funcs", r"^api\.", "-skip", "Server|NewServer|Recovery|Logger|Chain|captureStackTrace"]),
+                govc=["-unit", "api", "-funcs", r"^api\.", "-skip", r"^api\.(\(\*Server\)\..*|NewServer.*|Recovery|Recovery\$1|Logger.*|Chain.*|captureStackTrace)$"]),
 }
 
 TOKEN = re.compile(r'''("(?:\\.|[^"\\])*"|`[^`]*`|'(?:\\.|[^'\\])+'|//.*$|<-|<<=?|>>=?|&\^|<=|>=|==|!=|&&|\|\||:=|\+\+|--|[-+*/%&|^]=|0[xX][0-9a-fA-F_]+|\d+|[A-Za-z_]\w*|.)''')
@@ -65,6 +65,9 @@ def mutants_of_line(line):
             yield ("drop !", rebuild(i, ""))
         elif t in ("true", "false") and "return" in s:
             yield (f"{t} flipped", rebuild(i, "false" if t == "true" else "true"))
+    # deletion of a call statement (incl. deferred calls): `f(x)`, `obj.M(a, b)`, `defer p.Put(b)`
+    if re.match(r"^\s*(defer\s+)?[A-Za-z_][\w\.]*\(.*\)\s*$", s) and not re.match(r"^\s*(return|if|for|switch|go|func|case)\b", s):
+        yield ("delete call", re.match(r"^\s*", s).group(0) + "// deleted call")
     # statement deletion: simple assignments / calls on their own line
     if re.match(r"^\s*[\w\.\[\]\*]+(\s*,\s*[\w\.\[\]]+)*\s*(=|\+=|-=)\s*[^=].*[^{]$", s) and ":=" not in s:
         yield ("delete statement", re.match(r"^\s*", s).group(0) + "// deleted")
@@ -139,7 +142,7 @@ def eval_mutant(args):
 
 def main():
     a = sys.argv[1:]
-    unit, jobs, limit, out, files, every = "lib", 6, 0, None, None, 1
+    unit, jobs, limit, out, files, every, onlydesc = "lib", 6, 0, None, None, 1, None
     while a:
         if a[0] == "--unit": unit = a[1]; a = a[2:]
         elif a[0] == "--jobs": jobs = int(a[1]); a = a[2:]
@@ -147,8 +150,11 @@ def main():
         elif a[0] == "--out": out = a[1]; a = a[2:]
         elif a[0] == "--files": files = a[1].split(","); a = a[2:]
         elif a[0] == "--every": every = int(a[1]); a = a[2:]
+        elif a[0] == "--only-desc": onlydesc = a[1]; a = a[2:]
         else: a = a[1:]
     ms = gen(unit, files or UNITS[unit]["files"])
+    if onlydesc:
+        ms = [m for m in ms if onlydesc in m[2]]
     ms = ms[::every]
     # the registry table (suite_rfc6287.go from `var knownSuites`) is a long literal whose entries are each covered by a
     # ground table obligation: sample every 8th mutant there
